@@ -244,6 +244,10 @@ class OutputReference:
                     break
                 overlap += 1
 
+            if overlap != len(other_loc):
+                # VV: the location of this scope is not a prefix of the reference
+                continue
+
             if overlap > largest_overlap:
                 best = other_loc
                 largest_overlap = overlap
